@@ -284,7 +284,7 @@ func parseIndexContent(src []byte, header indexStart) ([][]byte, int, error) {
 	if oSize < 1 || 4 < oSize {
 		return nil, 0, fmt.Errorf("invalid offset size %d", oSize)
 	}
-	offsetArraySize := int(header.count+1) * oSize
+	offsetArraySize := (int(header.count) + 1) * oSize
 	if L := len(src); L < offsetArraySize {
 		return nil, 0, fmt.Errorf("reading INDEX offsets: EOF: expected length: %d, got %d", offsetArraySize, L)
 	}
